@@ -445,7 +445,7 @@ package fzf
 //@ ghost ncut int
 //@ ghost @"buf := slab[:n]" nread = nread + n
 //@ ghost @"buf = buf[i+1:]" ncut = ncut + len(leftover) + len(slice)
-//@ ghost @"if len(leftover) > 0 && r.pusher(leftover)" ncut = ncut + len(leftover)
+//@ ghost @"r.pusher(leftover)" ncut = ncut + len(leftover)
 //@ ensures nread == ncut
 // ... and a record handed over never contains the record delimiter (records are cut at every delimiter)
 //@ effect call r.pusher requires forall(k, 0, len(arg0), arg0[k] != delim) sets own(arg0)
